@@ -7,6 +7,7 @@ import (
 	"os/exec"
 	"strings"
 
+	"github.com/akalin/gopar/gf2p16"
 	"github.com/akalin/gopar/rsec16"
 
 	"verifsim/sched"
@@ -16,15 +17,25 @@ func init() {
 	Register(&Profile{Name: "coder-schedules", Prop: "C12", Weight: 10, Quick: 12000, Thorough: 400000, Fn: coderSchedules})
 	Register(&Profile{Name: "par2-goroutine-invariance", Prop: "C12", Weight: 3, Quick: 1500, Thorough: 40000, Fn: par2GoroutineInvariance})
 	Register(&Profile{Name: "coder-race-batch", Prop: "C12", Weight: 1, Quick: 16, Thorough: 300, Fn: coderRaceBatch})
-	Register(&Profile{Name: "coder-free", Prop: "C12-internal", Weight: 0, Fn: func(r *Run) { coderFree(r, 30); par2Free(r, 2) }})
+	Register(&Profile{Name: "coder-free", Prop: "C12-internal", Weight: 0, Fn: func(r *Run) {
+		if r.T.Bool(2, 3, "portable-kernels") {
+			// hook H3: with the portable kernels, every memory access of
+			// the coder is made by Go code and seen by the race detector
+			old := gf2p16.VerifSetPortable(true)
+			defer gf2p16.VerifSetPortable(old)
+			r.Probe("portable-kernels")
+		}
+		coderFree(r, 30)
+		par2Free(r, 2)
+	}})
 	SetMeta("C12", &Meta{
 		Level: "exploration",
-		Rule: "coder-schedules: seeded (coder kind, data/parity shard counts, even shard length, goroutine count, erasure set) with every release of a parked worker drawn from the tape; a case is non-trivial when a parallel region with >= 2 workers was driven, distinct by (shard length, workers spawned, strategy, operation, schedule hash). par2-goroutine-invariance: whole Create/Repair on the simulated disk across goroutine counts under driven schedules. coder-race-batch: the same coder workloads free-running in a -race build (secondary evidence; the assembly kernels are invisible to the race detector).",
+		Rule: "coder-schedules: seeded (coder kind, data/parity shard counts, even shard length, goroutine count, erasure set) with every release of a parked worker drawn from the tape; a case is non-trivial when a parallel region with >= 2 workers was driven, distinct by (shard length, workers spawned, strategy, operation, schedule hash). par2-goroutine-invariance: whole Create/Repair on the simulated disk across goroutine counts under driven schedules. coder-race-batch: the same coder workloads free-running in a -race build (in two thirds of the batch with the portable Go kernels selected through hook H3, so that the race detector sees every access of the coder).",
 		Assumptions: []string{
 			"the yield points of hook H2 sit before every kernel call, so interleavings are explored at kernel-call granularity; interleavings inside one kernel call are not explored (kernels of different workers touch disjoint bytes iff the logical range check passes)",
 			"all workers of one parallel region are mutually concurrent (no synchronisation between spawn and join), so pairwise disjointness of their write ranges plus full coverage is a complete race check for the shared output shards",
 			"goroutine identity is the address of the runtime g (read by a 3-instruction assembly stub)",
-			"the race-detector batch does not see memory accesses made by assembly kernels",
+			"the race-detector batch sees the kernels' memory accesses only in the runs that select the portable kernels (hook H3); the assembly kernels are then not the code that runs",
 		},
 		ProbesWant: []string{"len<16*workers", "len-not-multiple-of-16", "workers>units", "reconstruct-under-schedule", "vandermonde-singular-same-as-single", "shard>=64KiB"},
 	})
@@ -131,8 +142,19 @@ func coderSchedules(r *Run) {
 		big = true
 		r.Probe("shard>=64KiB")
 	}
+	manyTiny := false
+	if !big && t.Bool(1, 40, "many-tiny-shards") {
+		d = 200 + t.Draw(2000, "many-d")
+		p = 1 + t.Draw(3, "many-p")
+		length = 2 * (1 + t.Draw(31, "tiny-len"))
+		manyTiny = true
+		r.Probe("data-shards>=200")
+	}
 	units := (length + 15) / 16
 	g := 1 + t.Draw(units+3, "goroutines")
+	if manyTiny {
+		g = 2 + t.Draw(15, "many-g")
+	}
 	if big {
 		g = []int{2, 3, 4, 8, 16, 64}[t.Draw(6, "long-g")]
 	}
@@ -401,6 +423,14 @@ func coderFree(r *Run, iters int) {
 		p := 1 + t.Draw(6, "parity-shards")
 		length := coderLens[t.Draw(len(coderLens), "len")]
 		g := 2 + t.Draw((length+15)/16+3, "goroutines")
+		if t.Bool(1, 8, "many-tiny-shards") {
+			// hundreds to thousands of very short shards (PAR2 sets of
+			// many 4..60-byte slices)
+			d = 200 + t.Draw(2000, "many-d")
+			p = 1 + t.Draw(4, "many-p")
+			length = 2 * (1 + t.Draw(31, "tiny-len"))
+			g = 2 + t.Draw(15, "many-g")
+		}
 		var c, c1 rsec16.Coder
 		if kind == 0 {
 			c, _ = rsec16.NewCoderCauchy(d, p, g)
@@ -485,7 +515,7 @@ func mk0(r *Run, kind, d, p, g int) rsec16.Coder {
 func par2Free(r *Run, iters int) {
 	t := r.T
 	for it := 0; it < iters; it++ {
-		w := GenWorld(r, GenOpts{MaxFiles: 4, RandomOnly: true, SliceSizes: []int{16, 64, 100, 1024, 4096}, MaxTotal: 64 << 10})
+		w := GenWorld(r, GenOpts{MaxFiles: 4, RandomOnly: true, SliceSizes: []int{4, 8, 16, 64, 100, 1024, 4096}, MaxTotal: 64 << 10})
 		if t.Bool(1, 5, "big-input") {
 			size := (2 << 20) + t.Draw(1<<20, "mb-size")
 			if size/w.S > 20000 {
